@@ -56,6 +56,16 @@ func (p *Path) newNondet(label, kind string, w int) *Term {
 
 func boolArg(v Value) *Term { return v.(BoolV).T }
 
+// fewValues: a search result over a mostly concrete string (at most 2 symbolic comparisons) is forked into its
+// feasible concrete values, so that the slices cut at it keep concrete offsets; results over symbolic strings stay
+// ite-terms (forking there would multiply paths).
+func (p *Path) fewValues(res *Term, nsym int, what string) *Term {
+	if res.IsConst() || nsym == 0 || nsym > 2 || p.tolerant > 0 {
+		return res
+	}
+	return p.ctx.BV(64, p.concretize(res, 8, what+" result"))
+}
+
 func buildIntrinsics() map[string]intrinsic {
 	m := map[string]intrinsic{}
 	nd := func(kind string, w int) intrinsic {
@@ -349,10 +359,15 @@ func addBytesIntrinsics(m map[string]intrinsic) {
 		b := p.intOf(a[1]).T
 		n := p.concLen(s.Len, "IndexByte length")
 		res := c.BV(64, ^uint64(0))
+		nsym := 0
 		for i := n - 1; i >= 0; i-- {
-			res = c.Ite(c.Eq(p.seqAt(s, c.BV(64, uint64(i))), b), c.BV(64, uint64(i)), res)
+			e := c.Eq(p.seqAt(s, c.BV(64, uint64(i))), b)
+			if !e.IsConst() {
+				nsym++
+			}
+			res = c.Ite(e, c.BV(64, uint64(i)), res)
 		}
-		return []Value{IntV{T: res}}
+		return []Value{IntV{T: p.fewValues(res, nsym, "IndexByte")}}
 	}
 	for _, n := range []string{"bytes.IndexByte", "strings.IndexByte", "internal/bytealg.IndexByte", "internal/bytealg.IndexByteString", "internal/stringslite.IndexByte"} {
 		m[n] = indexByte
@@ -363,10 +378,15 @@ func addBytesIntrinsics(m map[string]intrinsic) {
 		b := p.intOf(a[1]).T
 		n := p.concLen(s.Len, "LastIndexByte length")
 		res := c.BV(64, ^uint64(0))
+		nsym := 0
 		for i := 0; i < n; i++ {
-			res = c.Ite(c.Eq(p.seqAt(s, c.BV(64, uint64(i))), b), c.BV(64, uint64(i)), res)
+			e := c.Eq(p.seqAt(s, c.BV(64, uint64(i))), b)
+			if !e.IsConst() {
+				nsym++
+			}
+			res = c.Ite(e, c.BV(64, uint64(i)), res)
 		}
-		return []Value{IntV{T: res}}
+		return []Value{IntV{T: p.fewValues(res, nsym, "LastIndexByte")}}
 	}
 	m["strings.LastIndexByte"] = lastIndexByte
 	m["bytes.LastIndexByte"] = lastIndexByte
@@ -378,14 +398,18 @@ func addBytesIntrinsics(m map[string]intrinsic) {
 		n := p.concLen(s.Len, "Index length")
 		k := p.concLen(sub.Len, "Index substring length")
 		res := c.BV(64, ^uint64(0))
+		nsym := 0
 		for i := n - k; i >= 0; i-- {
 			mt := c.True
 			for j := 0; j < k; j++ {
 				mt = c.And(mt, c.Eq(p.seqAt(s, c.BV(64, uint64(i+j))), p.seqAt(sub, c.BV(64, uint64(j)))))
 			}
+			if !mt.IsConst() {
+				nsym++
+			}
 			res = c.Ite(mt, c.BV(64, uint64(i)), res)
 		}
-		return []Value{IntV{T: res}}
+		return []Value{IntV{T: p.fewValues(res, nsym, "Index")}}
 	}
 	for _, n := range []string{"strings.Index", "bytes.Index", "internal/bytealg.Index", "internal/bytealg.IndexString", "internal/stringslite.Index"} {
 		m[n] = index
@@ -396,10 +420,15 @@ func addBytesIntrinsics(m map[string]intrinsic) {
 		b := p.intOf(a[1]).T
 		n := p.concLen(s.Len, "Count length")
 		res := c.BV(64, 0)
+		nsym := 0
 		for i := 0; i < n; i++ {
-			res = c.Add(res, c.Ite(c.Eq(p.seqAt(s, c.BV(64, uint64(i))), b), c.BV(64, 1), c.BV(64, 0)))
+			e := c.Eq(p.seqAt(s, c.BV(64, uint64(i))), b)
+			if !e.IsConst() {
+				nsym++
+			}
+			res = c.Add(res, c.Ite(e, c.BV(64, 1), c.BV(64, 0)))
 		}
-		return []Value{IntV{T: res}}
+		return []Value{IntV{T: p.fewValues(res, nsym, "Count")}}
 	}
 	m["internal/bytealg.Count"] = count
 	m["internal/bytealg.CountString"] = count
